@@ -58,10 +58,10 @@ def entry_payload(draw, routes):
 
 
 @st.composite
-def orthogonal_patterns(draw, n_bits, max_entries):
+def orthogonal_patterns(draw, n_bits, max_entries, min_entries=0):
     """A prefix-free (partition-derived) set of patterns over n_bits."""
     leaves = ["X" * n_bits]
-    want = draw(st.integers(0, max_entries))
+    want = draw(st.integers(min_entries, max_entries))
     while len(leaves) < want:
         splittable = [i for i, p in enumerate(leaves) if "X" in p]
         if not splittable:
@@ -80,17 +80,18 @@ def orthogonal_patterns(draw, n_bits, max_entries):
 
 
 @st.composite
-def table(draw, max_active=6, max_entries=40, kind=None, ks=None):
+def table(draw, max_active=6, max_entries=40, kind=None, ks=None,
+          min_entries=0):
     ks = dict(ks) if ks is not None else draw(keyspace(max_active))
     n = len(ks["bits"])
     kind = kind or draw(st.sampled_from(["orthogonal", "generality", "free"]))
     routes = draw(st.lists(route_strategy(), min_size=1, max_size=4))
     if kind == "orthogonal":
-        pats = draw(orthogonal_patterns(n, max_entries))
+        pats = draw(orthogonal_patterns(n, max_entries, min_entries))
     else:
         pat = st.text(alphabet="01X", min_size=n, max_size=n)
         biased = st.text(alphabet="01", min_size=n, max_size=n)
-        pats = draw(st.lists(st.one_of(pat, biased), min_size=0,
+        pats = draw(st.lists(st.one_of(pat, biased), min_size=min_entries,
                              max_size=max_entries))
         if kind == "generality":
             pats = sorted(pats, key=lambda p: p.count("X"))   # stable
